@@ -714,6 +714,12 @@ func describeD(v ssa.Value, d int) string {
 		}
 		return "alloc"
 	case *ssa.Convert:
+		// integer conversions that change the width are part of an expression's meaning (uint16 sums wrap)
+		if bx, ok := t.X.Type().Underlying().(*types.Basic); ok && bx.Info()&types.IsInteger != 0 {
+			if bt, ok := t.Type().Underlying().(*types.Basic); ok && bt.Info()&types.IsInteger != 0 && bt.Kind() != bx.Kind() {
+				return bt.Name() + "(" + describeD(t.X, d+1) + ")"
+			}
+		}
 		return describeD(t.X, d+1)
 	case *ssa.ChangeType:
 		return describeD(t.X, d+1)
